@@ -369,4 +369,330 @@ example : ([0, 1, 2] : List ℝ).Pairwise (· ≤ ·) ∧ ∀ x ∈ ([0, 1, 2] :
   constructor
   · simp [List.pairwise_cons]
   · intro x hx; simp at hx; rcases hx with rfl | rfl | rfl <;> norm_num
+
+/-! ## the wall node: every pass of every variant returns exactly 0 there -/
+
+theorem zeroLast_length : ∀ l : List ℝ, (zeroLast l).length = l.length
+  | [] => rfl
+  | [_] => rfl
+  | x :: y :: l => by simp [zeroLast, zeroLast_length (y :: l)]
+
+theorem zeroLast_getLast? : ∀ l : List ℝ, l ≠ [] → (zeroLast l).getLast? = some 0
+  | [], h => absurd rfl h
+  | [_], _ => by simp [zeroLast]
+  | x :: y :: l, _ => by
+    have ih := zeroLast_getLast? (y :: l) (by simp)
+    have hne : zeroLast (y :: l) ≠ [] := by
+      intro h; have := zeroLast_length (y :: l); rw [h] at this; simp at this
+    show (x :: zeroLast (y :: l)).getLast? = some 0
+    rw [List.getLast?_cons_of_ne_nil hne]; exact ih
+
+/-- last entry of an entry-wise combination of two equally long lists -/
+theorem getLast?_zipWith {β γ δ : Type} (f : β → γ → δ) : ∀ (a : List β) (b : List γ) (x : β) (y : γ), a.length = b.length →
+    a.getLast? = some x → b.getLast? = some y → (List.zipWith f a b).getLast? = some (f x y)
+  | [], _, _, _, _, ha, _ => by simp at ha
+  | _ :: _, [], _, _, h, _, _ => by simp at h
+  | [a0], [b0], x, y, _, ha, hb => by
+    simp at ha hb; subst ha hb; simp
+  | [a0], b0 :: b1 :: bs, _, _, h, _, _ => by simp at h
+  | a0 :: a1 :: as, [b0], _, _, h, _, _ => by simp at h
+  | a0 :: a1 :: as, b0 :: b1 :: bs, x, y, h, ha, hb => by
+    have ih := getLast?_zipWith f (a1 :: as) (b1 :: bs) x y (by simpa using h)
+      (by simpa [List.getLast?_cons_cons] using ha) (by simpa [List.getLast?_cons_cons] using hb)
+    have hne : List.zipWith f (a1 :: as) (b1 :: bs) ≠ [] := by simp
+    show (f a0 b0 :: List.zipWith f (a1 :: as) (b1 :: bs)).getLast? = _
+    rw [List.getLast?_cons_of_ne_nil hne]; exact ih
+
+theorem colSum_spec (n : ℕ) (hn : 0 < n) : ∀ (rows : List (List ℝ)), (∀ row ∈ rows, row.length = n ∧ row.getLast? = some 0) →
+    ∀ acc : List ℝ, acc.length = n → acc.getLast? = some 0 →
+    (rows.foldl (fun acc row => List.zipWith (· + ·) acc row) acc).length = n ∧
+    (rows.foldl (fun acc row => List.zipWith (· + ·) acc row) acc).getLast? = some 0 := by
+  intro rows
+  induction rows with
+  | nil => intro _ acc h1 h2; exact ⟨h1, h2⟩
+  | cons row rows ih =>
+    intro hr acc h1 h2
+    obtain ⟨hl, hz⟩ := hr row (by simp)
+    simp only [List.foldl_cons]
+    apply ih (fun r hr' => hr r (by simp [hr']))
+    · simp [h1, hl]
+    · have := getLast?_zipWith (fun a b : ℝ => a + b) acc row 0 0 (by omega) h2 hz
+      simpa using this
+
+theorem replicate_getLast? (n : ℕ) (hn : 0 < n) (x : ℝ) : (List.replicate n x).getLast? = some x := by
+  cases n with
+  | zero => omega
+  | succ m => simp [List.getLast?_replicate]
+
+theorem colSum_last (n : ℕ) (hn : 0 < n) (rows : List (List ℝ)) (h : ∀ row ∈ rows, row.length = n ∧ row.getLast? = some 0) :
+    (colSum n rows).length = n ∧ (colSum n rows).getLast? = some 0 := by
+  unfold colSum
+  exact colSum_spec n hn rows h _ (by simp) (by simpa using replicate_getLast? n hn 0)
+
+theorem getLast?_zipWith3 {β γ δ ε : Type} (f : β → γ → δ → ε) : ∀ (a : List β) (b : List γ) (c : List δ) (x : β) (y : γ) (z : δ),
+    a.length = b.length → a.length = c.length → a.getLast? = some x → b.getLast? = some y → c.getLast? = some z →
+    (zipWith3 f a b c).getLast? = some (f x y z) := by
+  intro a
+  induction a with
+  | nil => intro b c x y z _ _ ha; simp at ha
+  | cons a0 as ih =>
+    intro b c x y z hb hc ha hbl hcl
+    cases b with
+    | nil => simp at hb
+    | cons b0 bs =>
+      cases c with
+      | nil => simp at hc
+      | cons c0 cs =>
+        cases as with
+        | nil =>
+          have hbs : bs = [] := by simpa using hb.symm
+          have hcs : cs = [] := by simpa using hc.symm
+          subst hbs hcs
+          simp at ha hbl hcl; subst ha hbl hcl
+          simp [zipWith3]
+        | cons a1 as' =>
+          cases bs with
+          | nil => simp at hb
+          | cons b1 bs' =>
+            cases cs with
+            | nil => simp at hc
+            | cons c1 cs' =>
+              have := ih (b1 :: bs') (c1 :: cs') x y z (by simpa using hb) (by simpa using hc)
+                (by simpa [List.getLast?_cons_cons] using ha) (by simpa [List.getLast?_cons_cons] using hbl)
+                (by simpa [List.getLast?_cons_cons] using hcl)
+              show (f a0 b0 c0 :: zipWith3 f (a1 :: as') (b1 :: bs') (c1 :: cs')).getLast? = _
+              rw [List.getLast?_cons_of_ne_nil (by simp [zipWith3])]; exact this
+
+theorem zipWith3_length {β γ δ ε : Type} (f : β → γ → δ → ε) : ∀ (a : List β) (b : List γ) (c : List δ),
+    a.length = b.length → a.length = c.length → (zipWith3 f a b c).length = a.length := by
+  intro a
+  induction a with
+  | nil => intro b c _ _; cases b <;> cases c <;> simp [zipWith3]
+  | cons a0 as ih =>
+    intro b c hb hc
+    cases b with
+    | nil => simp at hb
+    | cons b0 bs =>
+      cases c with
+      | nil => simp at hc
+      | cons c0 cs => simp [zipWith3, ih bs cs (by simpa using hb) (by simpa using hc)]
+
+theorem mem_zipWith3 {β γ δ ε : Type} (f : β → γ → δ → ε) : ∀ (a : List β) (b : List γ) (c : List δ) (e : ε),
+    e ∈ zipWith3 f a b c → ∃ x ∈ a, ∃ y ∈ b, ∃ z ∈ c, e = f x y z := by
+  intro a
+  induction a with
+  | nil => intro b c e h; cases b <;> cases c <;> simp [zipWith3] at h
+  | cons a0 as ih =>
+    intro b c e h
+    cases b with
+    | nil => cases c <;> simp [zipWith3] at h
+    | cons b0 bs =>
+      cases c with
+      | nil => simp [zipWith3] at h
+      | cons c0 cs =>
+        simp only [zipWith3, List.mem_cons] at h
+        rcases h with rfl | h
+        · exact ⟨a0, by simp, b0, by simp, c0, by simp, rfl⟩
+        · obtain ⟨x, hx, y, hy, z, hz, rfl⟩ := ih bs cs e h
+          exact ⟨x, by simp [hx], y, by simp [hy], z, by simp [hz], rfl⟩
+
+theorem cTerm_length : ∀ (r sh : List ℝ), r.length = sh.length → (cTerm r sh).length = r.length
+  | [], [], _ => rfl
+  | [], _ :: _, h => by simp at h
+  | _ :: _, [], h => by simp at h
+  | [_], [_], _ => rfl
+  | [_], _ :: _ :: _, h => by simp at h
+  | _ :: _ :: _, [_], h => by simp at h
+  | r0 :: r1 :: rs, s0 :: s1 :: ss, h => by
+    have := cTerm_length (r1 :: rs) (s1 :: ss) (by simpa using h)
+    simp [cTerm, this]
+
+theorem getLast?_exists (l : List ℝ) (h : 0 < l.length) : ∃ v, l.getLast? = some v := by
+  cases hh : l.getLast? with
+  | none => rw [List.getLast?_eq_none_iff] at hh; rw [hh] at h; simp at h
+  | some v => exact ⟨v, rfl⟩
+
+/-- rows `_bx` of every species: one entry per node, zero at the wall -/
+theorem bxa_rows (n : ℕ) (hn : 0 < n) (sp : List (Species ℝ)) (shape : List (List ℝ)) (nax : List ℝ) (g : Species ℝ → ℝ → ℝ → ℝ)
+    (hs : ∀ sh ∈ shape, sh.length = n) :
+    ∀ row ∈ zipWith3 (fun (s : Species ℝ) (sh : List ℝ) nx => zeroLast (sh.map fun v => g s nx v)) sp shape nax,
+      row.length = n ∧ row.getLast? = some 0 := by
+  intro row hrow
+  obtain ⟨s, _, sh, hsh, nx, _, rfl⟩ := mem_zipWith3 _ _ _ _ row hrow
+  have hl : (sh.map fun v => g s nx v).length = n := by simp [hs sh hsh]
+  refine ⟨by rw [zeroLast_length]; exact hl, zeroLast_getLast? _ ?_⟩
+  intro h0; rw [h0] at hl; simp at hl; omega
+
+theorem jrows_onaxis (n : ℕ) (sp : List (Species ℝ)) (bxa : List (List ℝ)) (zp : List (List ℝ × ℝ))
+    (hb : ∀ row ∈ bxa, row.length = n ∧ row.getLast? = some 0) :
+    ∀ row ∈ zipWith3 (fun (s : Species ℝ) (bx : List ℝ) (_ : List ℝ × ℝ) => bx.map fun v => v * s.q / s.kT) sp bxa zp,
+      row.length = n ∧ row.getLast? = some 0 := by
+  intro row hrow
+  obtain ⟨s, _, bx, hbx, p, _, rfl⟩ := mem_zipWith3 _ _ _ _ row hrow
+  obtain ⟨hbl, hbz⟩ := hb bx hbx
+  refine ⟨by simp [hbl], ?_⟩
+  rw [List.getLast?_map, hbz]; simp
+
+theorem jrows_lin (n : ℕ) (hn : 0 < n) (r : List ℝ) (sp : List (Species ℝ)) (bxa : List (List ℝ)) (zp : List (List ℝ × ℝ))
+    (hr : r.length = n) (hb : ∀ row ∈ bxa, row.length = n ∧ row.getLast? = some 0) (hz : ∀ p ∈ zp, p.1.length = n) :
+    ∀ row ∈ zipWith3 (fun (s : Species ℝ) (bx : List ℝ) (p : List ℝ × ℝ) =>
+        List.zipWith (fun v c => v * s.q / s.kT * (p.2 - c) / p.2) bx (cTerm r p.1)) sp bxa zp,
+      row.length = n ∧ row.getLast? = some 0 := by
+  intro row hrow
+  obtain ⟨s, _, bx, hbx, p, hp, rfl⟩ := mem_zipWith3 _ _ _ _ row hrow
+  obtain ⟨hbl, hbz⟩ := hb bx hbx
+  have hcl : (cTerm r p.1).length = n := by rw [cTerm_length r p.1 (by rw [hz p hp]; exact hr)]; exact hr
+  obtain ⟨c, hc⟩ := getLast?_exists (cTerm r p.1) (by omega)
+  refine ⟨by simp [hbl, hcl], ?_⟩
+  rw [getLast?_zipWith _ bx _ 0 c (by omega) hbz hc]; simp
+
+theorem shape_len (sp : List (Species ℝ)) (phi : List ℝ) (f : Species ℝ → ℝ → ℝ) :
+    ∀ sh ∈ sp.map (fun s => phi.map fun p => f s p), sh.length = phi.length := by
+  intro sh hsh; simp only [List.mem_map] at hsh; obtain ⟨s, _, rfl⟩ := hsh; simp
+
+theorem zip_fst_len (shape : List (List ℝ)) (isr : List ℝ) (n : ℕ) (hs : ∀ sh ∈ shape, sh.length = n) :
+    ∀ p ∈ List.zip shape isr, p.1.length = n := fun p hp => hs p.1 (List.of_mem_zip hp).1
+
+/-- the right-hand side `b(φ)` and the Jacobian diagonal `j_d(φ)` that `step` builds have one entry per
+node and vanish at the wall node — because `_bx[:, -1] = 0` is applied to every species and the
+static charge (resp. the beam) carries nothing there -/
+theorem step_wall_rhs (I : BPIn ℝ) (phi : List ℝ) (hn : 0 < phi.length) (hr : I.r.length = phi.length)
+    (hstat : I.variant ≠ .ebeam → I.b0.length = phi.length ∧ I.b0.getLast? = some 0)
+    (hbeam : I.variant = .ebeam → I.cden.length = phi.length ∧ I.cden.getLast? = some 0) :
+    (step I phi).b.length = phi.length ∧ (step I phi).b.getLast? = some 0 ∧
+    (step I phi).jd.length = phi.length ∧ (step I phi).jd.getLast? = some 0 := by
+  obtain ⟨variant, r, ldu, b0, cden, e_kin, sp⟩ := I
+  obtain ⟨pl, hpl⟩ := getLast?_exists phi hn
+  simp only at hr hstat hbeam
+  cases variant with
+  | onaxis =>
+    obtain ⟨hb0l, hb0z⟩ := hstat (by decide)
+    simp only [step]
+    set shape : List (List ℝ) := sp.map fun s => phi.map fun p => Transc.exp (-s.q * (p - phi.headD (lit 0)) / s.kT) with hshape
+    have hsl := shape_len sp phi (fun s p => Transc.exp (-s.q * (p - phi.headD (lit 0)) / s.kT))
+    set i_sr : List ℝ := shape.map fun sh => trapz (List.zipWith (· * ·) r sh) r
+    set nax : List ℝ := zipWith3 (fun (s : Species ℝ) (_ : List ℝ) (_ : ℝ) => s.nl) sp shape i_sr
+    have hB := bxa_rows phi.length hn sp shape nax (fun s nx v => -nx * s.q * v * Const.Q_E / Const.EPS_0) hsl
+    set bxa := zipWith3 (fun (s : Species ℝ) (sh : List ℝ) nx => zeroLast (sh.map fun v => -nx * s.q * v * Const.Q_E / Const.EPS_0)) sp shape nax
+    obtain ⟨hsum_len, hsum_last⟩ := colSum_last phi.length hn bxa hB
+    have hJ := jrows_onaxis phi.length sp bxa (List.zip shape i_sr) hB
+    obtain ⟨hj_len, hj_last⟩ := colSum_last phi.length hn _ hJ
+    refine ⟨by simp [hb0l, hsum_len], ?_, by simp [hj_len], ?_⟩
+    · rw [getLast?_zipWith _ _ _ 0 0 (by omega) hb0z hsum_last]; simp
+    · rw [List.getLast?_map, hj_last]; simp
+  | linear =>
+    obtain ⟨hb0l, hb0z⟩ := hstat (by decide)
+    simp only [step]
+    set shape : List (List ℝ) := sp.map fun s => phi.map fun p => Transc.exp (-s.q * (p - phi.headD (lit 0)) / s.kT) with hshape
+    have hsl := shape_len sp phi (fun s p => Transc.exp (-s.q * (p - phi.headD (lit 0)) / s.kT))
+    set i_sr : List ℝ := shape.map fun sh => trapz (List.zipWith (· * ·) r sh) r
+    set nax : List ℝ := zipWith3 (fun (s : Species ℝ) (_ : List ℝ) (isr : ℝ) => s.nl / lit 2 / Const.PI / isr) sp shape i_sr
+    have hB := bxa_rows phi.length hn sp shape nax (fun s nx v => -nx * s.q * v * Const.Q_E / Const.EPS_0) hsl
+    set bxa := zipWith3 (fun (s : Species ℝ) (sh : List ℝ) nx => zeroLast (sh.map fun v => -nx * s.q * v * Const.Q_E / Const.EPS_0)) sp shape nax
+    obtain ⟨hsum_len, hsum_last⟩ := colSum_last phi.length hn bxa hB
+    have hJ := jrows_lin phi.length hn r sp bxa (List.zip shape i_sr) hr hB (zip_fst_len shape i_sr _ hsl)
+    obtain ⟨hj_len, hj_last⟩ := colSum_last phi.length hn _ hJ
+    refine ⟨by simp [hb0l, hsum_len], ?_, by simp [hj_len], ?_⟩
+    · rw [getLast?_zipWith _ _ _ 0 0 (by omega) hb0z hsum_last]; simp
+    · rw [List.getLast?_map, hj_last]; simp
+  | ebeam =>
+    obtain ⟨hcl, hcz⟩ := hbeam rfl
+    simp only [step]
+    set shape : List (List ℝ) := sp.map fun s => phi.map fun p => Transc.exp (-s.q * (p - minL phi) / s.kT) with hshape
+    have hsl := shape_len sp phi (fun s p => Transc.exp (-s.q * (p - minL phi) / s.kT))
+    set i_sr : List ℝ := shape.map fun sh => trapz (List.zipWith (· * ·) r sh) r
+    set nax : List ℝ := zipWith3 (fun (s : Species ℝ) (sh : List ℝ) (isr : ℝ) => s.nl / lit 2 / Const.PI / isr * sh.headD (lit 0)) sp shape i_sr
+    have hB := bxa_rows phi.length hn sp shape nax (fun s nx v => -nx * s.q * v * Const.Q_E / Const.EPS_0) hsl
+    set bxa := zipWith3 (fun (s : Species ℝ) (sh : List ℝ) nx => zeroLast (sh.map fun v => -nx * s.q * v * Const.Q_E / Const.EPS_0)) sp shape nax
+    obtain ⟨hsum_len, hsum_last⟩ := colSum_last phi.length hn bxa hB
+    have hJ := jrows_lin phi.length hn r sp bxa (List.zip shape i_sr) hr hB (zip_fst_len shape i_sr _ hsl)
+    obtain ⟨hj_len, hj_last⟩ := colSum_last phi.length hn _ hJ
+    set bxb : List ℝ := List.zipWith (fun c p => -c / Transc.sqrt (lit 2 * Const.Q_E * (e_kin + p) / Const.M_E) / Const.EPS_0) cden phi with hbxb
+    have hbxb_len : bxb.length = phi.length := by simp [hbxb, hcl]
+    have hbxb_last : bxb.getLast? = some 0 := by
+      rw [hbxb, getLast?_zipWith _ _ _ 0 pl (by omega) hcz hpl]; simp
+    refine ⟨by simp [hbxb_len, hsum_len], ?_, by rw [zipWith3_length _ _ _ _ (by omega) (by omega)]; exact hj_len, ?_⟩
+    · rw [getLast?_zipWith _ _ _ 0 0 (by omega) hsum_last hbxb_last]; simp
+    · rw [getLast?_zipWith3 _ _ _ _ 0 0 pl (by omega) (by omega) hj_last hbxb_last hpl]; simp
+
+/-- **the potential returned by every pass of every variant is exactly 0 at the wall**, whatever the
+previous iterate: boundary row `(0, 1, ·)`, `_bx[:, -1] = 0`, no static / beam charge on the wall node -/
+theorem step_wall_zero (I : BPIn ℝ) (phi : List ℝ) (u : ℝ) (hn : 0 < phi.length) (hr : I.r.length = phi.length)
+    (hl : I.ldu.length = phi.length) (hc : I.ldu.getLast? = some (0, 1, u))
+    (hstat : I.variant ≠ .ebeam → I.b0.length = phi.length ∧ I.b0.getLast? = some 0)
+    (hbeam : I.variant = .ebeam → I.cden.length = phi.length ∧ I.cden.getLast? = some 0) :
+    (step I phi).phi.getLast? = some 0 := by
+  obtain ⟨hb1, hb2, hj1, hj2⟩ := step_wall_rhs I phi hn hr hstat hbeam
+  obtain ⟨pl, hpl⟩ := getLast?_exists phi hn
+  have e := step_is_newton I phi
+  have := newton_wall_zero I.ldu phi (step I phi).b (step I phi).jd u pl hl (by omega) (by omega) hc hpl hb2 hj2
+  rw [← e] at this
+  exact this
+
+/-- the premises of `step_wall_zero` are what the three kernels provide: the static right-hand side is
+`-ρ₀/ε₀` with its wall entry zeroed, and the beam density vanishes outside the beam radius -/
+theorem static_rhs_premise : ∀ (rho0 : List ℝ), rho0 ≠ [] →
+    (poissonRhs rho0).length = rho0.length ∧ (poissonRhs rho0).getLast? = some 0
+  | [], h => absurd rfl h
+  | [_], _ => by simp [poissonRhs]
+  | x :: y :: l, _ => by
+    obtain ⟨h1, h2⟩ := static_rhs_premise (y :: l) (by simp)
+    have hne : poissonRhs (y :: l) ≠ [] := by intro h; rw [h] at h1; simp at h1
+    refine ⟨by simp [poissonRhs, h1], ?_⟩
+    show ((-x / Const.EPS_0) :: poissonRhs (y :: l)).getLast? = some 0
+    rw [List.getLast?_cons_of_ne_nil hne]; exact h2
+
+theorem beam_density_premise (r : List ℝ) (current r_e rl : ℝ) (hl : r.getLast? = some rl) (hout : r_e < rl) :
+    (beamDensity r current r_e).length = r.length ∧ (beamDensity r current r_e).getLast? = some 0 := by
+  unfold beamDensity
+  refine ⟨by simp, ?_⟩
+  rw [List.getLast?_map, hl]
+  simp [not_le.mpr hout]
+
+theorem newton_phi_length (ldu : List (ℝ × ℝ × ℝ)) (phi b jd : List ℝ)
+    (h1 : ldu.length = phi.length) (h2 : ldu.length = b.length) (h3 : ldu.length = jd.length) :
+    (newton ldu phi b jd).1.length = phi.length := by
+  simp only [newton]
+  have hfl : (targetFun none ldu phi b).length = ldu.length := by
+    rw [targetFun_eq ldu phi b none h1 h2]; simp [mulL_length 0 ldu phi h1]; omega
+  obtain ⟨_, hl⟩ := newtonRows_b ldu jd (targetFun none ldu phi b) h3 (by omega)
+  have hl' : (newtonRows ldu jd (targetFun none ldu phi b)).length = ldu.length := hl
+  simp [solve_length, hl']; omega
+
+theorem step_phi_length (I : BPIn ℝ) (phi : List ℝ) (hn : 0 < phi.length) (hr : I.r.length = phi.length) (hl : I.ldu.length = phi.length)
+    (hstat : I.variant ≠ .ebeam → I.b0.length = phi.length ∧ I.b0.getLast? = some 0)
+    (hbeam : I.variant = .ebeam → I.cden.length = phi.length ∧ I.cden.getLast? = some 0) :
+    (step I phi).phi.length = phi.length := by
+  obtain ⟨hb1, _, hj1, _⟩ := step_wall_rhs I phi hn hr hstat hbeam
+  have e := step_is_newton I phi
+  have := newton_phi_length I.ldu phi (step I phi).b (step I phi).jd hl (by omega) (by omega)
+  rw [← e] at this
+  exact this
+
+/-- **the potential the iteration returns is exactly 0 at the wall** — for every variant, every
+species mix, every starting potential of the right length and every pass budget ≥ 1, converged or not -/
+theorem loop_wall_zero (I : BPIn ℝ) (tol u : ℝ) (n : ℕ) (hn : 0 < n) (hr : I.r.length = n) (hl : I.ldu.length = n)
+    (hc : I.ldu.getLast? = some (0, 1, u))
+    (hstat : I.variant ≠ .ebeam → I.b0.length = n ∧ I.b0.getLast? = some 0)
+    (hbeam : I.variant = .ebeam → I.cden.length = n ∧ I.cden.getLast? = some 0) :
+    ∀ (fuel : ℕ) (phi : List ℝ) (it : ℕ) (last : Option (StepOut ℝ)), phi.length = n →
+      (loop I tol (fuel + 1) phi it last).1.getLast? = some 0 := by
+  intro fuel
+  induction fuel with
+  | zero =>
+    intro phi it last hp
+    have hz := step_wall_zero I phi u (by omega) (by omega) (by omega) hc (by rw [hp]; exact hstat) (by rw [hp]; exact hbeam)
+    simp only [loop]
+    split_ifs <;> exact hz
+  | succ f ih =>
+    intro phi it last hp
+    have hz := step_wall_zero I phi u (by omega) (by omega) (by omega) hc (by rw [hp]; exact hstat) (by rw [hp]; exact hbeam)
+    have hlen := step_phi_length I phi (by omega) (by omega) (by omega) (by rw [hp]; exact hstat) (by rw [hp]; exact hbeam)
+    rw [loop]
+    split_ifs
+    · exact hz
+    · exact ih (step I phi).phi (it + 1) (some (step I phi)) (by omega)
+
+-- non-vacuity: a wall row (0, 1, ·) and a three-node grid whose last node lies outside the beam
+example : ([0, 1e-4, 2e-4] : List ℝ).getLast? = some 2e-4 ∧ (1e-4 : ℝ) < 2e-4 := by constructor <;> norm_num
 end C13
